@@ -11,6 +11,7 @@ import (
 	"go/types"
 	"math/rand"
 	"os"
+	"reflect"
 	"sort"
 	"strings"
 	"time"
@@ -125,6 +126,11 @@ type Machine struct {
 	models  []*poolModel
 
 	shared     map[*value]bool
+	sharedMaps map[uintptr]bool
+	sharedSeen map[string]bool
+	sharedOn   bool
+	lockDepth  int
+	onceDone   map[*value]bool
 	sharedHits []string
 
 	Findings     []Finding
@@ -158,6 +164,7 @@ type Machine struct {
 	rng            *rand.Rand
 	sessionFP      bool
 	InitAllowed    func(*ssa.Package) bool
+	MonitorShared  bool // report stores into package-level state (C18)
 	sorted         bool
 }
 
@@ -223,8 +230,8 @@ func deref(t types.Type) types.Type {
 // ---- journal ----
 
 func (m *Machine) write(addr *value, v value) {
-	if m.shared != nil && m.shared[addr] {
-		m.sharedWrite(addr)
+	if m.sharedOn && m.shared[addr] {
+		m.sharedWrite("store into package-level state")
 	}
 	m.journal = append(m.journal, undo{addr: addr, old: *addr})
 	*addr = v
@@ -239,6 +246,9 @@ func (m *Machine) setEnv(fr *frame, k ssa.Value, v value) {
 }
 
 func (m *Machine) mapSet(mp map[value]value, k, v value) {
+	if m.sharedOn && m.sharedMaps[reflect.ValueOf(mp).Pointer()] {
+		m.sharedWrite("update of a package-level map")
+	}
 	old, had := mp[k]
 	m.journal = append(m.journal, undo{mp: mp, mkey: k, old: old, had: had})
 	mp[k] = v
@@ -248,6 +258,9 @@ func (m *Machine) mapDelete(mp map[value]value, k value) {
 	old, had := mp[k]
 	if !had {
 		return
+	}
+	if m.sharedOn && m.sharedMaps[reflect.ValueOf(mp).Pointer()] {
+		m.sharedWrite("delete from a package-level map")
 	}
 	m.journal = append(m.journal, undo{mp: mp, mkey: k, old: old, had: had})
 	delete(mp, k)
@@ -984,32 +997,39 @@ func (m *Machine) truthTableCost(bad *term.Term, maxBits int, maxCost uint64) (s
 			return solver.Unknown, nil
 		}
 	}
+	if maxCost <= 5_000_000 && !comp.Hard() {
+		// the solver answers such queries in milliseconds: enumerate only when that is cheaper still
+		maxCost = 100_000
+	}
 	if bitsTotal > maxBits || uint64(comp.Size())<<uint(bitsTotal) > maxCost {
 		return solver.Unknown, nil
 	}
-	assign := map[int]uint64{}
+	vv := make([]uint64, len(comp.Vars))
+	widths := make([]uint, len(comp.Vars))
+	for i, v := range comp.Vars {
+		widths[i] = 1
+		if v.Sort.K == term.KBV {
+			widths[i] = uint(v.Sort.W)
+		}
+	}
 	for n := uint64(0); n < uint64(1)<<uint(bitsTotal); n++ {
 		x := n
-		for _, v := range comp.Vars {
-			w := uint(1)
-			if v.Sort.K == term.KBV {
-				w = uint(v.Sort.W)
-			}
-			assign[v.ID] = x & (uint64(1)<<w - 1)
+		for i, w := range widths {
+			vv[i] = x & (uint64(1)<<w - 1)
 			x >>= w
 		}
-		get := comp.Run(assign)
+		comp.RunVals(vv)
 		ok := true
 		for _, r := range roots {
-			if get(r) == 0 {
+			if comp.Value(r) == 0 {
 				ok = false
 				break
 			}
 		}
 		if ok {
 			mod := term.NewModel()
-			for _, v := range comp.Vars {
-				mod.Set(v, assign[v.ID])
+			for i, v := range comp.Vars {
+				mod.Set(v, vv[i])
 			}
 			return solver.Sat, mod
 		}
@@ -1120,8 +1140,114 @@ func shortFile(f string) string {
 	return f
 }
 
-func (m *Machine) sharedWrite(addr *value) {
-	m.sharedHits = append(m.sharedHits, "write to package-level state")
+// sharedWrite records a store, made while a harness runs, into a cell that was reachable from a
+// package-level variable when package initialisation finished (C18: such a store is a data race as
+// soon as two goroutines use the library at the same time).
+func (m *Machine) sharedWrite(what string) {
+	if !m.sharedOn || m.lockDepth > 0 {
+		return
+	}
+	where := m.where(m.cur)
+	key := what + " @ " + where
+	if m.sharedSeen[key] {
+		return
+	}
+	m.sharedSeen[key] = true
+	m.sharedHits = append(m.sharedHits, key)
+	var model func(*term.Term) uint64
+	for i := len(m.models) - 1; i >= 0; i-- {
+		if m.modelSatisfies(m.models[i], m.C.True) {
+			model = m.models[i].m.Eval
+			break
+		}
+	}
+	if model == nil && len(m.pc) > 0 {
+		if fr2 := m.solveFresh(m.C.True); fr2.Res == solver.Sat {
+			mod := term.NewModel()
+			for _, v := range term.CollectVars(m.pc...) {
+				mod.Set(v, fr2.Values[v.Ref()])
+			}
+			model = mod.Eval
+		}
+	}
+	if model == nil {
+		if len(m.pc) > 0 {
+			m.incomplete("shared write on a path whose feasibility is undecided: " + key)
+			return
+		}
+		model = term.NewModel().Eval
+	}
+	m.Findings = append(m.Findings, Finding{Kind: "shared-write", Msg: what, Where: where, Inputs: m.inputVals(model)})
+}
+
+// MarkShared collects every cell and map reachable from the package-level variables of the given
+// packages; call it after RunInit.
+func (m *Machine) MarkShared(pkgs []*ssa.Package) int {
+	m.shared = map[*value]bool{}
+	m.sharedMaps = map[uintptr]bool{}
+	var walk func(v value, depth int)
+	walkCells := func(xs []value, depth int) {
+		for i := range xs {
+			if !m.shared[&xs[i]] {
+				m.shared[&xs[i]] = true
+				walk(xs[i], depth+1)
+			}
+		}
+	}
+	walk = func(v value, depth int) {
+		if depth > 10000 {
+			return
+		}
+		switch x := v.(type) {
+		case *value:
+			if x == nil || m.shared[x] {
+				return
+			}
+			m.shared[x] = true
+			walk(*x, depth+1)
+		case array:
+			walkCells(x, depth)
+		case structure:
+			walkCells(x, depth)
+		case []value:
+			walkCells(x[:cap(x)], depth)
+		case tuple:
+			walkCells(x, depth)
+		case iface:
+			walk(x.v, depth+1)
+		case map[value]value:
+			if x == nil {
+				return
+			}
+			id := reflect.ValueOf(x).Pointer()
+			if m.sharedMaps[id] {
+				return
+			}
+			m.sharedMaps[id] = true
+			for k, e := range x {
+				walk(k, depth+1)
+				walk(e, depth+1)
+			}
+		case *closure:
+			if x != nil {
+				walkCells(x.Env, depth)
+			}
+		}
+	}
+	for _, p := range pkgs {
+		for _, mem := range p.Members {
+			if g, ok := mem.(*ssa.Global); ok {
+				if strings.HasPrefix(g.Name(), "verif") || strings.HasPrefix(g.Name(), "zzVerif") {
+					continue
+				}
+				if c := m.globals[g]; c != nil {
+					walk(c, 0)
+				}
+			}
+		}
+	}
+	m.sharedSeen = map[string]bool{}
+	return len(m.shared)
 }
 
 // ResetForTask clears per-task state (terms, solver session, pooled models).
